@@ -494,6 +494,29 @@ def spec_bp(c, out):
 SPEC = {0: spec_fill, 1: spec_trim, 4: spec_merge, 5: spec_bb, 6: spec_bp}
 
 
+def canon_helper(fn, out):
+    """the helper functions are constrained through the bases they describe (theorems C17_trim_*, C17_merge_same_bases):
+    zero-length ranges in the output of trim_rangelist, and whether touching ranges are joined by the merge functions,
+    are representation; blacklisted_binning itself (fn 5) is compared exactly"""
+    try:
+        if fn == 1 and isinstance(out, list) and all(isinstance(r, list) and len(r) == 2 for r in out):
+            return [r for r in out if r[0] < r[1]]
+        if fn in (3, 4):
+            rows = out[1] if fn == 4 else out
+            if (fn == 3 or (isinstance(out, list) and len(out) == 2 and out[0] == 0)) and \
+                    all(isinstance(r, list) and len(r) == 2 and isinstance(r[0], int) for r in rows):
+                merged = []
+                for a, b in sorted(r for r in rows if r[0] < r[1]):
+                    if merged and a <= merged[-1][1]:
+                        merged[-1][1] = max(merged[-1][1], b)
+                    else:
+                        merged.append([a, b])
+                return merged if fn == 3 else [0, merged]
+    except Exception:
+        pass
+    return out
+
+
 def case_size(c):
     return len(json.dumps(c)) + sum(abs(x) for x in flatten(c))
 
@@ -821,7 +844,9 @@ def work(args):
         S['fn'][FN[fn]] += 1
         if isinstance(o, list) and o and o[0] == 'error':
             S['errors'] += 1
-        if model is not None and model[i] != o:
+        if o == ['missing']:
+            continue
+        if model is not None and canon_helper(fn, model[i]) != canon_helper(fn, o):
             S['ndis'] += 1
             S['dis'].append({'fn': FN[fn], 'input': c, 'model': model[i], 'impl': o})
             if len(S['dis']) > 40:
